@@ -27,6 +27,9 @@ type c08Scenario struct {
 	reused     bool // a warm-up request leaves an idle / shared connection
 	waitConn   bool // MaxConnsPerHost=1 and the only connection is busy
 	autoRead   bool // req's default: the response body is read inside the attempt
+	expect     time.Duration // > 0: the request carries "Expect: 100-continue" and this is the
+	// transport's ExpectContinueTimeout; after the request head the body is held back
+	noContinue bool // ... and the peer never says "100 Continue" (the timeout sends the body)
 	interval   time.Duration
 	midSleep   time.Duration // inject this long after the retry wait began (instead of at its start)
 }
@@ -133,6 +136,7 @@ func c08Exec(sc c08Scenario, kind string, trigger int, timeoutFlavour bool, clie
 	run := newC08Run(sc.up, sc.down, sc.failFirst, trigger, inject)
 	run.stallAt = timeoutFlavour
 	run.peerDriven = sc.autoRead
+	run.noContinue = sc.noContinue
 	run.delay = sc.midSleep
 
 	d := &c08Dialer{}
@@ -213,6 +217,9 @@ func c08Exec(sc c08Scenario, kind string, trigger int, timeoutFlavour bool, clie
 	if sc.waitConn {
 		c.GetTransport().SetMaxConnsPerHost(1)
 	}
+	if sc.expect > 0 {
+		c.GetTransport().SetExpectContinueTimeout(sc.expect)
+	}
 
 	// warm-up: leaves one idle (h1) / shared (h2) connection
 	if sc.reused {
@@ -289,6 +296,9 @@ func c08Exec(sc c08Scenario, kind string, trigger int, timeoutFlavour bool, clie
 		}
 		rq.SetContext(cctx)
 		method := "GET"
+		if sc.expect > 0 {
+			rq.SetHeader("Expect", "100-continue")
+		}
 		if sc.up > 0 {
 			method = "POST"
 			rq.SetBody(GetContentFunc(func() (io.ReadCloser, error) { return run.newBody(), nil }))
@@ -454,6 +464,11 @@ func c08Exec(sc c08Scenario, kind string, trigger int, timeoutFlavour bool, clie
 		// the request never claimed a connection: whether the follow-up finds one in the pool is
 		// decided by the other requests of the scenario, not by this one
 		o.conn = "?"
+	}
+	if o.firedNm == "delivered" {
+		// the hook runs in the dial goroutine AFTER the hand-over: the request may already be past
+		// its header write when the injection happens, so whether a stream existed is open
+		o.rst = "?"
 	}
 	if sc.proto == "h3" && strings.HasPrefix(o.firedNm, "dial") {
 		// whether a stream existed (and was reset) when the dial result raced the cancellation is
@@ -640,6 +655,17 @@ func c08Scenarios(proto string) []c08Scenario {
 		{name: "retry", proto: proto, down: 2, failFirst: 1, maxRetries: 2, interval: iv},
 		{name: "retry-upload", proto: proto, up: 2, down: 1, failFirst: 1, maxRetries: 1, interval: iv},
 	}
+	// rare but legal: "Expect: 100-continue" — after the request head the transport holds the body
+	// back until the peer says "100 Continue" (or ExpectContinueTimeout, far beyond the promptness
+	// bound here, is over): the point wroteHdr is then a cancellation DURING that wait
+	l = append(l,
+		c08Scenario{name: "upload-expect", proto: proto, up: 2, down: 1, expect: 5 * time.Second},
+		c08Scenario{name: "upload-expect-reused-retry", proto: proto, up: 1, down: 1, expect: 5 * time.Second, reused: true,
+			failFirst: 1, maxRetries: 1, interval: iv})
+	if verifh.Thorough() && proto != "h3" {
+		// the peer never answers 100: the (short) timeout releases the body
+		l = append(l, c08Scenario{name: "upload-expect-timeout", proto: proto, up: 2, down: 1, expect: 120 * time.Millisecond, noContinue: true})
+	}
 	// auto-read: a body read that fails is an attempt failure inside Request.do. (On h3 the pending
 	// read reports the stream error, not the context error, and which of the two the caller gets
 	// depends on whether the headers had been processed — with a retry left both end the same.)
@@ -667,7 +693,7 @@ func c08ScriptLane(t *testing.T, proto string, lane string) {
 	c08Mu.Lock()
 	defer c08Mu.Unlock()
 	s := verifh.New(t, "C08", lane,
-		"scenarios {fresh conn, reused conn, streaming upload (fresh/reused), multi-chunk download, retry with interval (GET/upload), waiting for a connection} on "+proto+" against a scripted peer + instrumented dialer; the context is cancelled (context.WithCancel) or its deadline passes (event-driven deadline context) synchronously after the k-th observable event (before the attempt, dial start/finish, TLS handshake done, connection delivered to the waiting request, request head received, i-th upload chunk received, response headers returned, j-th body chunk read, retry wait entered) for every k (quick tier: first, last and one seeded pick per kind of event), plus Client.SetTimeout expiring while the exchange is stalled at a point, plus a cancellation in the middle of a long retry wait; observed: error class, time from injection to return (bound 2 s), Close on every request body, attempts started after the injection, follow-up request on the same client (and whether it had to dial), RST seen by the h2 origin, library goroutines left after CloseIdleConnections; compared with the lifecycle model's set of allowed outcomes for that (scenario, point) and judged by an independent oracle; non-trivial = injection fired")
+		"scenarios {fresh conn, reused conn, streaming upload (fresh/reused), upload with Expect: 100-continue (body held back; ExpectContinueTimeout 5 s), multi-chunk download, retry with interval (GET/upload), waiting for a connection} on "+proto+" against a scripted peer + instrumented dialer; the context is cancelled (context.WithCancel) or its deadline passes (event-driven deadline context) synchronously after the k-th observable event (before the attempt, dial start/finish, TLS handshake done, connection delivered to the waiting request, request head received, i-th upload chunk received, response headers returned, j-th body chunk read, retry wait entered) for every k (quick tier: first, last and one seeded pick per kind of event), plus Client.SetTimeout expiring while the exchange is stalled at a point, plus a cancellation in the middle of a long retry wait; observed: error class, time from injection to return (bound 2 s), Close on every request body, attempts started after the injection, follow-up request on the same client (and whether it had to dial), RST seen by the h2 origin, library goroutines left after CloseIdleConnections; compared with the lifecycle model's set of allowed outcomes for that (scenario, point) and judged by an independent oracle; non-trivial = injection fired")
 	s.OracleIndependent = false
 	rnd := s.Rand()
 	cnt := map[string]int{}
@@ -789,7 +815,7 @@ func c08ScriptLane(t *testing.T, proto string, lane string) {
 
 		// the client timeout (Client.SetTimeout) expiring while the exchange is stalled at a point:
 		// a real timer, so only the generous bound is asserted; per attempt, so without retries
-		if sc.maxRetries == 0 && !sc.waitConn && (verifh.Thorough() || sc.name == "fresh" || sc.name == "upload" || sc.name == "download") {
+		if sc.maxRetries == 0 && !sc.waitConn && (verifh.Thorough() || sc.name == "fresh" || sc.name == "upload" || sc.name == "download" || sc.name == "upload-expect") {
 			var picks []int
 			if verifh.Thorough() {
 				for k := 0; k < n; k++ {
